@@ -23,6 +23,8 @@ CHECKS = {
          TECH + "; differential testing against a reference model plus storage-form oracle (reference snappy decoder)"),
  "C14": ("exploration", "The Redis 5 command table (about 230 names, embedded with Redis's own write flags) is enumerated block-wise by run index in lower, upper and mixed case with 0-4 arguments under each of the three read strategies, together with random non-commands, on random layouts of 1-4 masters x 0-2 replicas, one sequential client with nanosecond-varied pacing (the replica choice depends on the clock). Each request carries a unique key so node log entries are attributable; oracle: documented-unsupported names and non-commands get an error and reach no node, locally answered commands are answered and reach no node, a forwarded write is only ever received by the master owning the key's slot, a forwarded read only by that master or one of its replicas, a replica only when the strategy permits and only on a connection that issued READONLY.", "4.C14",
          TECH + "; exhaustive enumeration of the command table inside seeded layouts"),
+ "C18": ("exploration", "Seeded exploration of SCAN iterations over 1-6 simulated nodes with disjoint key sets (0-200 keys), scripted page sequences (empty pages, repeated elements) and arbitrary node cursors below 2^48 (boundary values included); adaptive clients iterate from cursor 0 with random MATCH/COUNT, several iterations and wild client-supplied cursors run concurrently; oracle: cursor 0 is reached within (sum of node pages + nodes + 1) calls, no phantom key, every matching key returned, nodes visited in host-list order with exactly their own cursor chains and unchanged MATCH/COUNT, a cursor past the last node gets the terminating reply, any client cursor gets exactly one reply.", "4.C18",
+         TECH + "; scripted peers with adaptive client and exact call-chain oracle"),
 }
 NA = {
 }
